@@ -566,3 +566,394 @@ def gen_growth(rng):
         h.r(h.start, h.end + 1)
         impl_cases.append(h.case("growth-%d" % big))
     return model_cases, impl_cases
+
+
+# ====================================================================== filestore suite
+ALPHA = b"abcdefghijklmnopqrstuvwxyz0123456789"
+FS_HEADER = ("From RN Require Import Base.Res Codec.Varint Codec.BufReader Codec.Script RaftLog.LogFile "
+             "RaftLog.Script RaftLog.LogManager RaftLog.ManagerScript.\nOpen Scope N_scope.\n")
+
+
+def fs_value(kind, vlen, vseed):
+    if kind == "b":
+        return b'"Blank"'
+    key = bytes(ALPHA[b % 36] for b in lcg_bytes(vlen, vseed))
+    return b'{"Normal":{"data":{"ConfigRemove":{"key":"' + key + b'"}}}}'
+
+
+def fs_ptr_value(pid):
+    return (b'{"SnapshotPointer":{"id":"' + str(pid).encode() +
+            b'","membership":{"members":[1],"members_after_consensus":null}}}')
+
+
+def dg(b):
+    return [len(b), msum(b)]
+
+
+def coq_vspec(kind, vlen, vseed):
+    return "VBlank" if kind == "b" else "(VJ %d%%nat %d)" % (vlen, vseed)
+
+
+def coq_mop(op):
+    k = op[0]
+    if k == "a":
+        return "MA %d %d %s" % (op[1], op[2], coq_vspec(op[3], op[4], op[5]))
+    if k == "b":
+        return "MB [%s]" % ";".join("(%d,%d,%s)" % (e[0], e[1], coq_vspec(e[2], e[3], e[4])) for e in op[1])
+    if k == "d":
+        return "MD %d" % op[1]
+    if k == "g":
+        return "MG %d %d" % (op[1], op[2])
+    if k == "l":
+        return "ML"
+    if k == "ptr":
+        return "MPtr %d %d %d" % (op[1], op[2], op[3])
+    if k == "bptr":
+        return "MBPtr %d %d %d" % (op[1], op[2], op[3])
+    if k == "so":
+        return "MSo %d" % op[1]
+    if k == "reopen":
+        return "MReopen"
+    raise ValueError(op)
+
+
+FS_COMPARED = ("a", "b", "d", "g", "l", "ptr", "bptr", "so", "reopen")
+
+
+def coq_filestore_case(c):
+    ops = [o for o in c["ops"] if o[0] in FS_COMPARED]
+    return "run_filestore %d [%s]" % (c.get("limit") or 4096, ";".join(coq_mop(o) for o in ops))
+
+
+def canon_fs_model(v):
+    out = []
+    for o in v:
+        if o == "ODone":
+            out.append("done")
+        elif o[0] == "OAck":
+            out.append({"ack": o[1] == "true"})
+        elif o[0] == "OEnts":
+            out.append({"g": [[e[0], e[1], e[2][0], e[2][1]] for e in o[1]]})
+        elif o[0] == "OLast":
+            out.append({"l": [o[1], o[2]]})
+    return out
+
+
+def canon_fs_impl(c, r):
+    if r.get("r") != "ok":
+        return "panic"
+    out = []
+    for op, o in zip(c["ops"], r["out"]):
+        k = op[0]
+        if k not in FS_COMPARED:
+            continue
+        if k in ("a", "b", "d"):
+            out.append({"ack": o.get(k) == "ok"})
+        elif k == "g":
+            out.append({"g": o.get("g")})
+        elif k == "l":
+            out.append({"l": o.get("l")})
+        else:
+            out.append("done" if o.get(k) == "ok" else {"err": o})
+    return out
+
+
+class FsHist:
+    """builds one `filestore` case inside the domain the model is claimed faithful on, tracking the
+    abstract log (what C02/C03 demand)"""
+
+    def __init__(self, rng, limit=None, first=1):
+        self.rng = rng
+        self.limit = limit
+        self.ops = []
+        self.ents = []            # visible entries [index, term, len, msum] (a pointer entry first, if any)
+        self.first = first        # index of the first entry ever appended
+        self.ptr = None           # index of the newest installed pointer
+        self.term = 1
+        self.pending_bptr = None
+
+    @property
+    def end(self):
+        return self.ents[-1][0] + 1 if self.ents else self.first
+
+    def _ent(self, idx, term, kind, vlen, vseed):
+        return [idx, term] + dg(fs_value(kind, vlen, vseed))
+
+    def spec(self, idx):
+        if self.rng.random() < 0.08:
+            self.term += 1
+        kind = "b" if self.rng.random() < 0.25 else "j"
+        vlen = self.rng.choice([0, 1, 3, 8, 20, 60]) if self.rng.random() < 0.9 else self.rng.randrange(60, 400)
+        return [idx, self.term, kind, vlen, self.rng.randrange(1, 1 << 30)]
+
+    def a(self):
+        e = self.spec(self.end)
+        self.ops.append(["a"] + e)
+        self.ents.append(self._ent(*e))
+        return self
+
+    def a_bad(self):
+        e = self.spec(self.end + self.rng.choice([1, 2, 5]))
+        self.ops.append(["a"] + e)
+        return self
+
+    def b(self, n):
+        es = []
+        for _ in range(n):
+            e = self.spec(self.end)
+            es.append(e)
+            self.ents.append(self._ent(*e))
+        self.ops.append(["b", es])
+        return self
+
+    def d(self, k):
+        self.ops.append(["d", k])
+        self.ents = [e for e in self.ents if e[0] < k]
+        return self
+
+    def can_cut(self):
+        lo = (self.ptr + 1) if self.ptr is not None else self.first
+        return lo, self.end
+
+    def ptr_at(self, p, pid, install=True):
+        """pointer for index p (an index the log holds, above any earlier pointer)"""
+        term = next(e[1] for e in self.ents if e[0] == p)
+        if install:
+            self.ops.append(["so", p + 1])
+            self.ops.append(["ptr", p, term, pid])
+            self._apply_ptr(p, term, pid)
+        else:
+            self.ops.append(["bptr", p, term, pid])
+            if self.pending_bptr is not None:
+                self._apply_ptr(*self.pending_bptr)
+            self.pending_bptr = (p, term, pid)
+        return self
+
+    def _apply_ptr(self, p, term, pid):
+        self.ents = [[p, term] + dg(fs_ptr_value(pid))] + [e for e in self.ents if e[0] > p]
+        self.ptr = p
+
+    def reopen(self):
+        self.ops.append(["reopen"])
+        self.pending_bptr = None
+        return self
+
+    def g(self, a, b):
+        self.ops.append(["g", a, b])
+        return self
+
+    def check(self, around=None):
+        self.ops.append(["l"])
+        e = self.end
+        self.g(max(0, e - 3), e + 2)
+        if around is not None:
+            self.g(max(0, around - 2), around + 3)
+        return self
+
+    def full(self):
+        self.g(0, self.end + 5)
+        self.ops.append(["cat"])
+        return self
+
+    def case(self, tag):
+        c = {"ops": self.ops, "tag": tag}
+        if self.limit:
+            c["limit"] = self.limit
+        return c
+
+
+def oracle_filestore(c, r):
+    """C02/C03 on the RaftStorage API: entries returned = acknowledged - removed, contiguous, last
+    index/term right after a reopen, append at k accepted after delete-from k."""
+    fails, feats = [], set()
+    if r.get("r") != "ok":
+        return [("panic", "FileStore session panicked")], feats
+    ents = []         # visible entries
+    first = None
+    ptr = None
+    pending = None
+    stale = False
+    after_reopen = False
+    just_cut = None
+    for n, (op, o) in enumerate(zip(c["ops"], r["out"])):
+        k = op[0]
+        end = ents[-1][0] + 1 if ents else (first if first is not None else None)
+        if k in ("a", "b"):
+            es = [op[1:]] if k == "a" else op[1]
+            ok = o.get(k) == "ok"
+            contiguous = True
+            e0 = end
+            for e in es:
+                if e0 is not None and e[0] != e0:
+                    contiguous = False
+                e0 = e[0] + 1
+            if ok:
+                if not contiguous:
+                    fails.append(("append-noncontiguous", "op %d: non-contiguous append acknowledged" % n))
+                for e in es:
+                    if first is None:
+                        first = e[0]
+                    ents.append([e[0], e[1]] + dg(fs_value(e[2], e[3], e[4])))
+                if es:
+                    stale = False
+            elif contiguous and es:
+                key = "append-after-truncate-rejected" if just_cut == es[0][0] else "append-rejected"
+                fails.append((key, "op %d: contiguous append at %d rejected" % (n, es[0][0])))
+            just_cut = None
+            after_reopen = False
+        elif k == "d":
+            if o.get("d") != "ok":
+                fails.append(("truncate-error", "op %d: delete_logs_from failed" % n))
+            else:
+                kk = op[1]
+                if any(e[0] >= kk for e in ents):
+                    ents = [e for e in ents if e[0] < kk]
+                    stale = True
+                    just_cut = kk
+                    feats.add("cut")
+            after_reopen = False
+        elif k in ("ptr", "bptr"):
+            p, term, pid = op[1], op[2], op[3]
+            if k == "bptr":
+                prev, pending = pending, (p, term, pid)
+                if prev is None:
+                    continue
+                p, term, pid = prev
+            ents = [[p, term] + dg(fs_ptr_value(pid))] + [e for e in ents if e[0] > p]
+            ptr = p
+            feats.add("pointer")
+        elif k == "reopen":
+            after_reopen = True
+            stale = False
+            pending = None
+            feats.add("reopen")
+        elif k == "g":
+            got = o.get("g")
+            want = [e for e in ents if op[1] <= e[0] < op[2]]
+            if got != want:
+                key = "entries-after-reopen" if after_reopen else "entries"
+                if isinstance(got, list) and len(got) > len(want):
+                    key = "entries-invented-or-resurrected"
+                fails.append((key, "op %d: get_log_entries(%d,%d) returned %s entries, expected %d" % (
+                    n, op[1], op[2], len(got) if isinstance(got, list) else got, len(want))))
+        elif k == "l":
+            got = o.get("l")
+            if ents:
+                if not isinstance(got, list) or got[0] != ents[-1][0]:
+                    fails.append(("last-index", "op %d: last log index %s, expected %d" % (n, got, ents[-1][0])))
+                elif not stale and got[1] != ents[-1][1]:
+                    key = "last-term-after-reopen" if after_reopen else "last-term"
+                    fails.append((key, "op %d: last log term %s, expected %d" % (n, got, ents[-1][1])))
+        elif k == "cat":
+            if isinstance(o.get("cat"), list) and len(o["cat"]) > 1:
+                feats.add("multi-file")
+    return fails, feats
+
+
+def gen_fs_pointer_shapes(rng):
+    cases = []
+    for install in (True, False):
+        for cutwhere in ("above", "end-1", "p+1"):
+            h = FsHist(rng)
+            h.b(rng.randrange(6, 14)).check()
+            p = rng.randrange(h.first + 1, h.end - 2)
+            if install:
+                h.ptr_at(p, rng.randrange(1, 99))
+            else:
+                h.ptr_at(p - 1 if p > h.first + 1 else p, 3, install=False)
+                h.a().a()
+                h.ptr_at(p + 1 if p + 1 < h.end - 1 else p, 4, install=False)
+            h.check().full()
+            lo, e = h.can_cut()
+            if e - lo >= 1:
+                cut = {"above": rng.randrange(lo, e), "end-1": e - 1, "p+1": lo}[cutwhere]
+                cut = max(lo, min(cut, e))
+                h.d(cut).check(cut)
+                if rng.random() < 0.5:
+                    h.reopen().check(cut)
+                h.a().check(cut)
+            for _ in range(rng.randrange(0, 4)):
+                h.a()
+            h.reopen().check().full()
+            h.a().check()
+            cases.append(h.case("pointer-%s-%s" % ("install" if install else "build", cutwhere)))
+    # the pointer is the last entry, then reopen (last term must be the pointer's term: defect 8c)
+    h = FsHist(rng)
+    h.b(5)
+    h.term += 2
+    h.b(5).check()
+    h.ptr_at(h.end - 1, 7).check().reopen().check().full().a().check().reopen().check()
+    cases.append(h.case("pointer-at-last-entry"))
+    return cases
+
+
+def gen_fs_rollover(rng, tier):
+    """catalogues with several files through the hooked small limit: appends and batches across the
+    rollover, a batch ending exactly on it (defect 8a), cuts in closed files (defect 7)"""
+    cases = []
+    for limit, per_file in ((43, 128), (45, 256), (47, 384)):
+        for variant in range(2 if tier == "quick" else 6):
+            h = FsHist(rng, limit=limit)
+            # a batch that ends exactly on the record that fills the file
+            if variant == 0:
+                h.b(per_file).check().a().check().full()
+            else:
+                h.b(rng.randrange(1, per_file - 1))
+                while h.end - h.first < per_file + rng.randrange(1, 40):
+                    if rng.random() < 0.5:
+                        h.a()
+                    else:
+                        h.b(rng.randrange(1, 60))
+                h.check().full()
+            if rng.random() < 0.5:
+                h.reopen().check().full()
+            # cut into the closed file
+            lo, e = h.can_cut()
+            cut = rng.choice([h.first + per_file - 1, h.first + per_file, h.first + per_file // 2,
+                              h.first + 1, h.first + INTERVAL, e - 1])
+            cut = max(lo, min(cut, e))
+            h.d(cut).check(cut).full()
+            if rng.random() < 0.6:
+                h.reopen().check(cut).full()
+            h.a().check(cut)
+            # refill until the file rolls over again (the new file gets a re-used id)
+            while h.end - h.first < per_file + 5:
+                h.b(rng.randrange(1, 80))
+            h.check().full().reopen().check().full()
+            h.a().check()
+            cases.append(h.case("rollover-limit%d-v%d" % (limit, variant)))
+    return cases
+
+
+def gen_fs_random(rng, n, max_ops):
+    cases = []
+    for _ in range(n):
+        limit = rng.choice([None, None, 43, 47])
+        h = FsHist(rng, limit=limit, first=rng.choice([1, 1, 1, 2]))
+        h.b(rng.randrange(1, 6))
+        for _ in range(rng.randrange(4, max_ops)):
+            x = rng.random()
+            if x < 0.35:
+                h.a()
+            elif x < 0.60:
+                h.b(rng.choice([0, 1, 2, 5, 30, 130]))
+            elif x < 0.70:
+                lo, e = h.can_cut()
+                if e > lo:
+                    cut = rng.choice([lo, e - 1, e, rng.randrange(lo, e + 1)])
+                    h.d(cut).check(cut)
+            elif x < 0.78:
+                h.reopen().check()
+            elif x < 0.84:
+                lo, e = h.can_cut()
+                if e - 1 > lo:
+                    h.ptr_at(rng.randrange(lo, e - 1), rng.randrange(1, 500), install=rng.random() < 0.6)
+                    h.check()
+            elif x < 0.88:
+                h.a_bad().check()
+            else:
+                a = rng.randrange(0, h.end + 2)
+                h.g(a, a + rng.choice([1, 3, 50, 1000]))
+        h.check().full().reopen().check().full()
+        cases.append(h.case("random-fs"))
+    return cases
